@@ -16,6 +16,8 @@ import Binson.Model.Api
 import Binson.Model.Writer
 import Binson.Model.Print
 import Binson.Model.Transcribe
+import Binson.Model.Cpp
+import Binson.Spec.Canon
 
 open Binson
 
@@ -107,6 +109,76 @@ def flagsOfWord (f : Nat) : Flags := .junk (f % 4 != 0) ((f / 4) % 4 != 0)
 
 def pattern (n : Nat) : Array UInt8 := Array.replicate n 0xAA
 
+/-! ### C++ class: tree text `{ k<hex> <v> ... }  [ <v> ... ]  t f i<dec> d<bits> s<hex> y<hex>` (insertion order) -/
+partial def parseTreeValue : List String → Option (Value × List String)
+  | [] => none
+  | x :: r =>
+    if x == "t" then some (.bool true, r)
+    else if x == "f" then some (.bool false, r)
+    else if x == "{" then (parseTreeFields r).map fun (fs, r') => (.obj fs, r')
+    else if x == "[" then (parseTreeElems r).map fun (xs, r') => (.arr xs, r')
+    else if x.startsWith "i" then some (.int (x.drop 1).toString.toInt!, r)
+    else if x.startsWith "d" then some (.dbl (UInt64.ofNat (x.drop 1).toString.toNat!), r)
+    else if x.startsWith "s" then some (.str (parseHex (x.drop 1).toString).toList, r)
+    else if x.startsWith "y" then some (.bytes (parseHex (x.drop 1).toString).toList, r)
+    else none
+where
+  parseTreeFields : List String → Option (Fields × List String)
+    | [] => none
+    | x :: r =>
+      if x == "}" then some (.nil, r) else
+      if x.startsWith "k" then
+        match parseTreeValue r with
+        | some (v, r') => (parseTreeFields r').map fun (fs, r'') => (.cons (parseHex (x.drop 1).toString).toList v fs, r'')
+        | none => none
+      else none
+  parseTreeElems : List String → Option (Elems × List String)
+    | [] => none
+    | x :: r =>
+      if x == "]" then some (.nil, r) else
+      match parseTreeValue (x :: r) with
+      | some (v, r') => (parseTreeElems r').map fun (xs, r'') => (.cons v xs, r'')
+      | none => none
+
+def hexL (b : List UInt8) : String := hexOf b.toArray
+
+def cppDes (k : Nat) (bytes : Array UInt8) : Except String Fields :=
+  -- overloads 1 and 2 build the parser themselves; overload 3 is handed an initialised parser
+  if k == 3 then
+    let r := init (garbageParser 10) bytes 1
+    if !r.2 then .error "Parser init error" else cppDeserializeP r.1
+  else cppDeserialize bytes
+
+def execCpp (toks : List String) : Option String :=
+  match toks with
+  | "xs" :: tree =>
+    (match parseTreeValue tree with
+     | some (.obj fs, _) => (match putAll (.obj fs) with
+        | .obj m => some s!"ok {hexL (cppSerialize m)}"
+        | _ => some "exc bad tree")
+     | _ => some "exc tree must be an object")
+  | op :: tree =>
+    if op.startsWith "xr" then
+      let k := (op.drop 2).toString.toNat!
+      (match parseTreeValue tree with
+       | some (.obj fs, _) => (match putAll (.obj fs) with
+          | .obj m =>
+            let b := cppSerialize m
+            (match cppDes k b.toArray with
+             | .ok m2 => some s!"ok {hexL b} {hexL (cppSerialize m2)}"
+             | .error e => some s!"exc {e}")
+          | _ => some "exc bad tree")
+       | _ => some "exc tree must be an object")
+    else if op.startsWith "xd" then
+      let k := (op.drop 2).toString.toNat!
+      (match tree with
+       | [_, hx] => (match cppDes k (parseHex hx) with
+          | .ok m => some s!"ok {hexL (cppSerialize m)}"
+          | .error e => some s!"exc {e}")
+       | _ => some "bad-op")
+    else none
+  | [] => none
+
 /-- execute one op on the model; `hint` is the implementation's line (only used for the garbage
     facts of `P`). Returns the new world and the observation line. -/
 def execModel (w : World) (toks : List String) (hint : String) : World × String :=
@@ -122,6 +194,9 @@ def execModel (w : World) (toks : List String) (hint : String) : World × String
     withP fun p => let r := f p; (setP w k r.1, pobs r.1 (toString r.2.toNat) p.ncb)
   let wOp (op : WOp) : World × String :=
     withW fun x => let r := x.step op; (setW w k r.1, wobs r.1 r.2)
+  match (if (toks.headD "").startsWith "x" then execCpp toks else none) with
+  | some out => (w, out)
+  | none =>
   match toks with
   | ["M", t] => (w, s!"M {t}")
   | ["C", id] => ({}, s!"C {id}")
@@ -538,6 +613,33 @@ def writerOracle (o : OState) (k : Nat) (toks : List String) (impl : String) : O
           | _ => o)
        | _ => o)
 
+/-- C15: the C++ class against encode / sortKeys / decodeDoc at depth 10 -/
+def cppOracle (o : OState) (op : String) (toks : List String) (impl : String) : OState :=
+  let o := { o with nWriterJudged := o.nWriterJudged + 1 }
+  let parts := impl.splitOn " "
+  if op == "xs" || op.startsWith "xr" then
+    match parseTreeValue (toks.drop 1) with
+    | some (v, _) =>
+      let c := sortKeys v
+      if !wfValue c then o else
+      let enc := hexL (encode c)
+      if op == "xs" then
+        (if impl != s!"ok {enc}" then o.flag "C15" s!"serialize() is not the canonical encoding of the tree with keys sorted: got {impl} want ok {enc}" else o)
+      else if fits 10 255 c then
+        (if impl != s!"ok {enc} {enc}" then o.flag "C15" s!"deserialize(serialize(x)) != x or not canonical: got {impl} want ok {enc} {enc}" else o)
+      else
+        (if parts.headD "" != "exc" then o.flag "C15" s!"object nesting beyond 10 must be rejected with an exception (verify at depth 10 rejects), got {impl}" else o)
+    | none => o
+  else if op.startsWith "xd" then
+    match toks with
+    | [_, _, hx] =>
+      let bytes := parseHex hx
+      (match decodeDoc .object 10 bytes.toList with
+       | some _ => if impl != s!"ok {hexOf bytes}" then o.flag "C15" s!"valid document: serialize(deserialize(bytes)) must equal bytes, got {impl}" else o
+       | none => if parts.headD "" != "exc" then o.flag "C15" s!"verify at depth 10 rejects these bytes, so deserialize must throw; got {impl}" else o)
+    | _ => o
+  else o
+
 /-- one op through all oracles -/
 def oracleStep (o : OState) (toks : List String) (impl : String) : OState :=
   let (k, toks) := match toks with
@@ -560,6 +662,7 @@ def oracleStep (o : OState) (toks : List String) (impl : String) : OState :=
       else o
     | _ => if o.region == 1 then { o with regionA := impl :: o.regionA } else if o.region == 2 then { o with regionB := impl :: o.regionB } else o
   if op == "M" then o else
+  if op.startsWith "x" then cppOracle o op toks impl else
   if op == "C" then { o with ps := #[{}, {}, {}, {}], ws := #[{}, {}, {}, {}], nCases := o.nCases + 1, region := 0 } else
   if ["W", "wx", "wob", "woe", "wab", "wae", "wb", "wi", "wd", "ws", "wn", "wy", "wr", "wc", "wv", "dump"].contains op then
     writerOracle o k toks impl else
